@@ -138,6 +138,14 @@ def run(ctx):
     roles = common.role_fields(ctx, lib, want=common.CLASS_ROLES)
     ctx.floor("ROLE", "class roles resolved to config fields", len([r for r in roles if r.startswith("class:")]), 6)
     cls4(ctx, lib)
+    # ESC-1/2 (shared with C01): the class tokens written into a grapheme keep their backslash while every literal backslash is escaped, per occurrence and for every entry
+    from .C01 import esc
+    ctx.rule("ESC-1", "every regex metacharacter incl. the backslash is escaped in literals per occurrence; only a backslash directly followed by d/D/s/S/w/W (a class token) is kept")
+    ctx.rule("ESC-2", "escaping is applied to and stored back for every stored string of a grapheme")
+    esc(ctx, prog, lib)
+    from .C05 import lbl2
+    ctx.rule("LBL-2", "label identity in the automaton code is decided on the labels' entries (chars()), never on their joined text (value()): a class token must not share an edge with literal text")
+    lbl2(ctx, lib)
     from . import memo
     memo.rules(ctx)
     memo.check(ctx, lib)
